@@ -187,6 +187,24 @@ func checkC04(c *core.Ctx) error {
 						continue
 					}
 					nGood++
+					if !variant.upper {
+						// partial pivoting: every comparison of the pivot search is between the magnitudes of two candidate entries
+						badCmp := ""
+						for _, cv := range pa.Conds {
+							if cv.C.Op != "lt" || cv.C.A == nil || cv.C.B == nil {
+								continue
+							}
+							isAbs := func(t *sym.Term) bool {
+								as := t.Atoms()
+								return len(as) == 1 && as[0].Kind == "fabs" && len(as[0].Args) == 1 && sym.Equal(t, sym.Fn("fabs", as[0].Args[0]))
+							}
+							if !isAbs(cv.C.A) || !isAbs(cv.C.B) {
+								badCmp = cv.C.String()
+							}
+						}
+						c.Check(badCmp == "", "C04.R1", cons, "pivot search compares magnitudes "+tag+"["+shortConds(pa.CondString())+"]", fd.Pos(),
+							"the pivot search decides on "+shortTerm(sym.Sym(badCmp))+", which is not a comparison between the absolute values of two candidate entries: a signed or stale value can make the search pick a tiny or zero pivot (a regular matrix is then reported singular, or accuracy is lost)")
+					}
 					am, _ := pa.Params[0].(*vn.LocalMat)
 					xm, _ := pa.Params[1].(*vn.LocalMat)
 					bv, _ := pa.Params[2].(*vn.LocalVec)
